@@ -531,6 +531,10 @@ def monitors_popen(s, drv, rep):
                     fails["C11"].append("op#%d wait_timeout(%d) reported 'still running' %d ns early" % (i + 1, d, t0 + d - t1))
                 if t1 > t0 + d + 4 * D_ + O_:
                     fails["C11"].append("op#%d wait_timeout(%d) reported 'still running' %d ns late" % (i + 1, d, t1 - t0 - d))
+                # the answer rests on a status check made no earlier than one call duration before the deadline
+                if exit_time is not None and reap is None and exit_time + D_ <= t0 + d:
+                    fails["C11"].append("op#%d wait_timeout(%d) reported 'still running' although the child had exited %d ns before the deadline (stale status check)"
+                                        % (i + 1, d, t0 + d - exit_time))
             elif not val.startswith("err") and reported is not None and finished_at_op == i and exit_time is not None:
                 if t1 > max(exit_time, t0 + D_) + 100 * MS + 3 * D_ + O_:
                     fails["C11"].append("op#%d wait_timeout(%d) reported the exit %d ns after it happened" % (i + 1, d, t1 - max(exit_time, t0)))
